@@ -1,7 +1,7 @@
 /-
 SystemVerilog / Verilog subset emitted by the PyMTL3 translation passes
 (`passes/backends/verilog/translation/**` and `passes/backends/yosys/translation/**`):
-abstract syntax and an executable *two-state, unsigned* semantics following IEEE 1800-2017.
+abstract syntax and an executable *two-state* semantics (signed and unsigned expression types) following IEEE 1800-2017.
 
 Expression sizing (IEEE 1800-2017 §11.6, Table 11-21, §11.8):
 * `selfWidth` is the self-determined bit length of an expression;
@@ -14,10 +14,24 @@ Expression sizing (IEEE 1800-2017 §11.6, Table 11-21, §11.8):
 * a size cast `N'(e)` is given both readings the standard's wording admits (operand self-determined /
   operand sized as the right-hand side of an assignment to an `N`-bit variable, §6.24.1): parameter
   `castB`; every theorem is proved for both values and the driver evaluates both.
-* everything is unsigned (all signals emitted by the translators are unsigned `logic`; the
-  `integer` loop variables of the Yosys backend only take non-negative values and only meet
-  unsigned operands) and two-state (a design whose PyMTL simulation raises no exception never
-  divides by zero or selects out of range, see the correspondence check).
+* signedness (IEEE 1800-2017 §11.8.1, §11.8.2): `signedOf` is the self-determined type of an expression —
+  sized literals `N'dV`, variables of type `logic`, selects, concatenations, comparison / reduction / logical
+  results are unsigned; an unsized decimal number, `$signed(e)` (`sgn`; a reference to a variable of a signed
+  type such as the `integer` loop variables of the Yosys backend is the `$signed` view of its vector,
+  `Expr.elabS` in Model/SVMod.lean) are signed; a size cast `N'(e)` keeps the signedness of its operand (§6.24.1);
+  unary `~ - +` keep it; a binary arithmetic / bitwise operator and `?:` are signed iff both (branch) operands are;
+  shifts take the type of their left operand.  `evalC W S e` evaluates in a context of `W` bits and type `S`
+  (the type of the enclosing context-determined expression, propagated to the operands): an operand narrower
+  than the context is sign-extended only if the context type is signed (`ext`); `/`, `%`, `>>>` and — on their
+  own operand context, signed iff both operands are — the relational operators interpret their operands as
+  two's-complement numbers when the type is signed.  `eval W e = evalC W (signedOf e) e` is the evaluation of an
+  expression that is the root of its context (right-hand side, condition, index, concatenation member, …).
+  An index / shift amount / replication member is the bit pattern of its self-determined operand read as an
+  unsigned number (a negative signed index is out of range by the letter of the LRM; tools read the pattern:
+  the upstream import tests of the Yosys backend address element 4 with `x[3'(i)]`, i = 4).
+  `**` with signed operands is outside the subset (never emitted): evaluated as unsigned.
+* two-state (a design whose PyMTL simulation raises no exception never divides by zero or selects out of
+  range, see the correspondence check).
 
 Variables have a packed data type (`PTy`: vector, packed array, packed struct — first member most
 significant, element 0 of a packed dimension least significant, §7.2.1, §7.4.1) and unpacked
@@ -106,6 +120,7 @@ deriving DecidableEq, Repr, Inhabited
 inductive BinOp where
   | add | sub | mul | div | mod | pow | shl | shr | band | bor | bxor | bxnor
   | eq | ne | lt | le | gt | ge | land | lor
+  | ashr                                  -- >>> (arithmetic when the expression type is signed)
 deriving DecidableEq, Repr, Inhabited
 
 inductive Expr where
@@ -123,6 +138,7 @@ inductive Expr where
   | bin (op : BinOp) (a b : Expr)
   | cond (c t f : Expr)
   | cast (w : Nat) (e : Expr)             -- w'( e )
+  | sgn (e : Expr)                        -- $signed( e ); also the reference to a variable of a signed type
 deriving Repr, Inhabited
 
 /-- constant expressions in positions that must be elaboration-time constants (range bounds,
@@ -184,10 +200,29 @@ def selfWidth (Γ : Env) : Expr → Nat
   | .bin op a b =>
     match op with
     | .add | .sub | .mul | .div | .mod | .band | .bor | .bxor | .bxnor => max (selfWidth Γ a) (selfWidth Γ b)
-    | .shl | .shr | .pow => selfWidth Γ a
+    | .shl | .shr | .ashr | .pow => selfWidth Γ a
     | _ => 1
   | .cond _ t f => max (selfWidth Γ t) (selfWidth Γ f)
   | .cast w _ => w
+  | .sgn e => selfWidth Γ e
+
+/-- self-determined type of an expression: `true` = signed (IEEE 1800-2017 §11.8.1; §5.7.1 for numbers;
+    §6.24.1 for the size cast) -/
+def signedOf : Expr → Bool
+  | .num _ => true
+  | .sgn _ => true
+  | .un op e =>
+    match op with
+    | .bnot | .neg | .plus => signedOf e
+    | _ => false
+  | .bin op a b =>
+    match op with
+    | .add | .sub | .mul | .div | .mod | .band | .bor | .bxor | .bxnor => signedOf a && signedOf b
+    | .shl | .shr | .ashr => signedOf a
+    | _ => false
+  | .cond _ t f => signedOf t && signedOf f
+  | .cast _ e => signedOf e
+  | _ => false
 
 /-- a resolved select: variable, flattened unpacked element, bit offset and width inside the packed
     element, remaining type; `ok = false` when an index is out of range (reads 0, writes nothing) -/
@@ -222,27 +257,43 @@ def replVal (w v : Nat) : Nat → Nat
   | 0 => 0
   | n+1 => replVal w v n * 2 ^ w + v
 
-/-- binary operators on operands already evaluated in a `W`-bit context -/
-def binVal (op : BinOp) (W a b : Nat) : Nat :=
+/-- a `w`-bit pattern is negative as a two's-complement number -/
+def isNeg (w v : Nat) : Bool := decide (0 < w) && decide (2 ^ (w - 1) ≤ v)
+
+/-- two's-complement reading of a `w`-bit pattern -/
+def toInt (w v : Nat) : Int := if isNeg w v then (v : Int) - ((2 ^ w : Nat) : Int) else (v : Int)
+
+/-- the `w`-bit pattern of an integer -/
+def ofInt (w : Nat) (i : Int) : Nat := (i % ((2 ^ w : Nat) : Int)).toNat
+
+/-- an operand of `w` bits (value `v < 2^w`) in a context of `W` bits: extended with its sign bit only when the
+    type `s` propagated from the context is signed (§11.8.2) -/
+def ext (s : Bool) (w W v : Nat) : Nat :=
+  if s && decide (w < W) && isNeg w v then v + (2 ^ W - 2 ^ w) else v
+
+/-- binary operators on operands already evaluated in a context of `W` bits and type `s` (`true` = signed) -/
+def binVal (op : BinOp) (W : Nat) (s : Bool) (a b : Nat) : Nat :=
   match op with
   | .add => (a + b) % 2 ^ W
   | .sub => (a + 2 ^ W - b % 2 ^ W) % 2 ^ W
   | .mul => (a * b) % 2 ^ W
-  | .div => if b = 0 then 0 else a / b
-  | .mod => if b = 0 then 0 else a % b
+  | .div => if b = 0 then 0 else if s then ofInt W (Int.tdiv (toInt W a) (toInt W b)) else a / b
+  | .mod => if b = 0 then 0 else if s then ofInt W (Int.tmod (toInt W a) (toInt W b)) else a % b
   | .pow => (a ^ b) % 2 ^ W
   | .shl => if b ≥ W then 0 else (a * 2 ^ b) % 2 ^ W   -- = (a * 2^b) % 2^W; guarded so that huge shift amounts stay executable
   | .shr => a >>> b                                      -- = a / 2^b (Nat.shiftRight_eq_div_pow)
+  | .ashr =>                                             -- the vacated bits take the sign bit when the type is signed
+    if s && isNeg W a then (if b ≥ W then 2 ^ W - 1 else (a >>> b) + (2 ^ W - 2 ^ (W - b))) else a >>> b
   | .band => a &&& b
   | .bor => a ||| b
   | .bxor => a ^^^ b
   | .bxnor => 2 ^ W - 1 - (a ^^^ b) % 2 ^ W
   | .eq => b2n (a == b)
   | .ne => b2n (a != b)
-  | .lt => b2n (decide (a < b))
-  | .le => b2n (decide (a ≤ b))
-  | .gt => b2n (decide (a > b))
-  | .ge => b2n (decide (a ≥ b))
+  | .lt => b2n (if s then decide (toInt W a < toInt W b) else decide (a < b))
+  | .le => b2n (if s then decide (toInt W a ≤ toInt W b) else decide (a ≤ b))
+  | .gt => b2n (if s then decide (toInt W a > toInt W b) else decide (a > b))
+  | .ge => b2n (if s then decide (toInt W a ≥ toInt W b) else decide (a ≥ b))
   | .land => b2n (a != 0 && b != 0)
   | .lor => b2n (a != 0 || b != 0)
 
@@ -263,47 +314,51 @@ def unVal (op : UnOp) (W a : Nat) : Nat :=
 def stepDim (elem d i : Nat) : Nat := elem * d + i
 
 mutual
-/-- evaluation in a context of `ctx` bits -/
-def eval (castB : Bool) (Γ : Env) (σ : Store) : Nat → Expr → Nat
-  | _, .lit w v => v % 2 ^ w                       -- an oversized value is truncated (§5.7.1)
-  | _, .num v => v
-  | _, .ident x => match loc castB Γ σ (.ident x) with | some l => readLoc σ l | none => 0
-  | _, .member e f => match loc castB Γ σ (.member e f) with | some l => readLoc σ l | none => 0
-  | _, .index e i =>
+/-- evaluation in a context of `W` bits whose expression type is `S` (`true` = signed) -/
+def evalC (castB : Bool) (Γ : Env) (σ : Store) : Nat → Bool → Expr → Nat
+  | _, _, .lit w v => v % 2 ^ w                       -- an oversized value is truncated (§5.7.1)
+  | W, S, .num v => ext S 32 W v
+  | _, _, .ident x => match loc castB Γ σ (.ident x) with | some l => readLoc σ l | none => 0
+  | _, _, .member e f => match loc castB Γ σ (.member e f) with | some l => readLoc σ l | none => 0
+  | _, _, .index e i =>
     match loc castB Γ σ (.index e i) with
     | some l => readLoc σ l
-    | none => (eval castB Γ σ (selfWidth Γ e) e / 2 ^ (eval castB Γ σ (selfWidth Γ i) i)) % 2
-  | _, .range e hi lo =>
+    | none => (evalC castB Γ σ (selfWidth Γ e) (signedOf e) e / 2 ^ (evalC castB Γ σ (selfWidth Γ i) (signedOf i) i)) % 2
+  | _, _, .range e hi lo =>
     match loc castB Γ σ (.range e hi lo) with
     | some l => readLoc σ l
     | none =>
       match constVal hi, constVal lo with
-      | some h, some l => (eval castB Γ σ (selfWidth Γ e) e / 2 ^ l) % 2 ^ (h + 1 - l)
+      | some h, some l => (evalC castB Γ σ (selfWidth Γ e) (signedOf e) e / 2 ^ l) % 2 ^ (h + 1 - l)
       | _, _ => 0
-  | _, .plusSel e b w => match loc castB Γ σ (.plusSel e b w) with | some l => readLoc σ l | none => 0
-  | _, .cat1 e => eval castB Γ σ (selfWidth Γ e) e
-  | _, .concat a b =>
-    eval castB Γ σ (selfWidth Γ a) a * 2 ^ (selfWidth Γ b) + eval castB Γ σ (selfWidth Γ b) b
-  | _, .repl n e => replVal (selfWidth Γ e) (eval castB Γ σ (selfWidth Γ e) e) ((constVal n).getD 0)
-  | W, .un op e =>
+  | _, _, .plusSel e b w => match loc castB Γ σ (.plusSel e b w) with | some l => readLoc σ l | none => 0
+  | _, _, .cat1 e => evalC castB Γ σ (selfWidth Γ e) (signedOf e) e
+  | _, _, .concat a b =>
+    evalC castB Γ σ (selfWidth Γ a) (signedOf a) a * 2 ^ (selfWidth Γ b) + evalC castB Γ σ (selfWidth Γ b) (signedOf b) b
+  | _, _, .repl n e => replVal (selfWidth Γ e) (evalC castB Γ σ (selfWidth Γ e) (signedOf e) e) ((constVal n).getD 0)
+  | W, S, .un op e =>
     match op with
-    | .bnot | .neg | .plus => unVal op W (eval castB Γ σ W e)
-    | _ => unVal op (selfWidth Γ e) (eval castB Γ σ (selfWidth Γ e) e)
-  | W, .bin op a b =>
+    | .bnot | .neg | .plus => unVal op W (evalC castB Γ σ W S e)
+    | _ => unVal op (selfWidth Γ e) (evalC castB Γ σ (selfWidth Γ e) (signedOf e) e)
+  | W, S, .bin op a b =>
     match op with
     | .add | .sub | .mul | .div | .mod | .band | .bor | .bxor | .bxnor =>
-      binVal op W (eval castB Γ σ W a) (eval castB Γ σ W b)
-    | .shl | .shr | .pow =>
-      binVal op W (eval castB Γ σ W a) (eval castB Γ σ (selfWidth Γ b) b)
+      binVal op W S (evalC castB Γ σ W S a) (evalC castB Γ σ W S b)
+    | .shl | .shr | .ashr | .pow =>
+      binVal op W S (evalC castB Γ σ W S a) (evalC castB Γ σ (selfWidth Γ b) (signedOf b) b)
     | .eq | .ne | .lt | .le | .gt | .ge =>
+      -- the two operands form a context of their own: the larger width, signed iff both are signed
       let m := max (selfWidth Γ a) (selfWidth Γ b)
-      binVal op m (eval castB Γ σ m a) (eval castB Γ σ m b)
+      let s := signedOf a && signedOf b
+      binVal op m s (evalC castB Γ σ m s a) (evalC castB Γ σ m s b)
     | .land | .lor =>
-      binVal op 1 (eval castB Γ σ (selfWidth Γ a) a) (eval castB Γ σ (selfWidth Γ b) b)
-  | W, .cond c t f =>
-    if eval castB Γ σ (selfWidth Γ c) c ≠ 0 then eval castB Γ σ W t else eval castB Γ σ W f
-  | _, .cast w e =>
-    eval castB Γ σ (if castB then max w (selfWidth Γ e) else selfWidth Γ e) e % 2 ^ w
+      binVal op 1 false (evalC castB Γ σ (selfWidth Γ a) (signedOf a) a) (evalC castB Γ σ (selfWidth Γ b) (signedOf b) b)
+  | W, S, .cond c t f =>
+    if evalC castB Γ σ (selfWidth Γ c) (signedOf c) c ≠ 0 then evalC castB Γ σ W S t else evalC castB Γ σ W S f
+  | W, S, .cast w e =>
+    ext (S && signedOf e) w W
+      (evalC castB Γ σ (if castB then max w (selfWidth Γ e) else selfWidth Γ e) (signedOf e) e % 2 ^ w)
+  | W, S, .sgn e => ext S (selfWidth Γ e) W (evalC castB Γ σ (selfWidth Γ e) (signedOf e) e)
 
 /-- resolution of a select chain rooted at a declared variable -/
 def loc (castB : Bool) (Γ : Env) (σ : Store) : Expr → Option Loc
@@ -318,13 +373,13 @@ def loc (castB : Bool) (Γ : Env) (σ : Store) : Expr → Option Loc
   | .index e i =>
     match loc castB Γ σ e with
     | some ⟨x, el, lo, t, d :: ds, ok⟩ =>
-      let iv := eval castB Γ σ (selfWidth Γ i) i
+      let iv := evalC castB Γ σ (selfWidth Γ i) (signedOf i) i
       some ⟨x, stepDim el d iv, lo, t, ds, ok && decide (iv < d)⟩
     | some ⟨x, el, lo, .arr n t, [], ok⟩ =>
-      let iv := eval castB Γ σ (selfWidth Γ i) i
+      let iv := evalC castB Γ σ (selfWidth Γ i) (signedOf i) i
       some ⟨x, el, lo + iv * t.width, t, [], ok && decide (iv < n)⟩
     | some ⟨x, el, lo, .vec w, [], ok⟩ =>
-      let iv := eval castB Γ σ (selfWidth Γ i) i
+      let iv := evalC castB Γ σ (selfWidth Γ i) (signedOf i) i
       some ⟨x, el, lo + iv, .vec 1, [], ok && decide (iv < w)⟩
     | _ => none
   | .range e hi lo' =>
@@ -335,11 +390,14 @@ def loc (castB : Bool) (Γ : Env) (σ : Store) : Expr → Option Loc
   | .plusSel e b w' =>
     match loc castB Γ σ e, constVal w' with
     | some ⟨x, el, lo, .vec w, [], ok⟩, some k =>
-      let bv := eval castB Γ σ (selfWidth Γ b) b
+      let bv := evalC castB Γ σ (selfWidth Γ b) (signedOf b) b
       some ⟨x, el, lo + bv, .vec k, [], ok && decide (bv + k ≤ w)⟩
     | _, _ => none
   | _ => none
 end
+
+/-- evaluation of an expression that is the root of its context, in `W` bits: its own type is the context type -/
+def eval (castB : Bool) (Γ : Env) (σ : Store) (W : Nat) (e : Expr) : Nat := evalC castB Γ σ W (signedOf e) e
 
 /-- value assigned to an `lw`-bit target: the right-hand side is evaluated in a context of
     `max lw (selfWidth rhs)` bits and truncated (§11.6, §10.7) -/
